@@ -29,7 +29,8 @@ func runScript(id string, cfg sessionCfg, kind string, ops []string, settle time
 		return out, err
 	}
 	defer s.stop()
-	for _, op := range ops {
+	for i, op := range ops {
+		s.beforeStop = beforeStop(ops[i+1:])
 		r := s.step(op)
 		out.Steps = append(out.Steps, r)
 		if strings.Contains(r.Note, "WEDGED") {
